@@ -280,6 +280,20 @@ def controller(ctx):
                     ('pwr_pos', 'wheel power above the positive power limit is an error value'),
                     ('pwr_neg', 'braking power above the dynamic braking limit is an error value')):
         ctx.check(have[k_], 'C03-4.errors', fid + '|' + k_, txt, 'guard not found on the accepted paths', w)
+    # ---- the braking capability the clip uses: the friction brake's current maximum builds up linearly and never exceeds its rating
+    fb = ctx.anchor(R, 'FricBrake::set_cur_force_max_out')
+    fan = analysis_or_fail(ctx, R, fb) if fb is not None else None
+    if fan is not None:
+        s_ = lambda *f_: T(('pre', P(*f_)))
+        dtp = T(('pre', (('val', fb.params[1][0]),)))
+        got = T(fan.load(P('state', 'force_max_curr'), fan.exit_state))
+        prove(ctx, R, 'FricBrake::set_cur_force_max_out|build-up', fan, 'eq', got, (s_('state', 'force') + s_('force_max') / s_('ramp_up_time') * dtp).min(s_('force_max')),
+              assume=A, where=ctx.where(fb), note='current maximum = min(applied force + rating/ramp-up time · dt, rating)')
+        prove(ctx, R, 'FricBrake::set_cur_force_max_out|<=rating', fan, 'le', got, s_('force_max'), assume=A, where=ctx.where(fb), note='never above the rating the braking curve was built with')
+        cs2 = [c_ for c_ in an.calls if c_.targets and 'FricBrake::set_cur_force_max_out' in c_.targets]
+        ctx.check(len(cs2) == 1 and cs2[0].argvals[0] == ('ref', P('fric_brake'), 'mut') and cs2[0].argvals[1] == pre('state', 'dt') and not cs2[0].in_loop, R,
+                  fid + '|brake limit updated', 'the friction brake\'s current maximum is refreshed with the step size before the force is clipped',
+                  '%d calls' % len(cs2), w)
     # ---- lookup
     lookup(ctx)
 
